@@ -331,7 +331,9 @@ func c04OwnedOutput(c *Ctx) {
 	p := c.P
 	rule := "C04.owned-output"
 	c.Doc(rule, "every function of the package that puts an object into a sync.Pool (directly or by defer): none of its results is that object, a slice or field of it, or the result of a method called on it")
-	c.Floor(rule, 10)
+	// (the pinned tree has 16 Put sites, ten of them the per-level gzip writer pools of compress(), which a helper
+	// returning the pool for a level reduces to one: the floor only guards against the rule matching nothing)
+	c.Floor(rule, 4)
 	isPut := func(cc *ssa.CallCommon) bool {
 		f := cc.StaticCallee()
 		return f != nil && f.String() == "(*sync.Pool).Put" && len(cc.Args) == 2
